@@ -71,17 +71,28 @@ fn gen_dag_once(seed: u64, o: &DagOpts) -> Spec {
         spec.sinks.push(if rng.chance(1, 4) { SinkSpec::Slot } else { SinkSpec::Buffer(4096) });
     }
     for i in 0..n {
-        let mut ns = NodeSpec { name: format!("n{}", i), cap: rng.range(1, o.max_cap as u64) as usize, added: true, key_slots: 1, ..Default::default() };
-        if o.hierarchy && i > 0 && rng.chance(1, 3) {
-            // Parent among lower indices, depth <= 3.
-            let p = rng.usize(i);
+        // Mostly plain names; sometimes empty, dotted, non-ASCII or long ones
+        // (the expected qualified name is the same dot-join in every case).
+        let name = match rng.below(16) {
+            0 => String::new(),
+            1 => format!("n{}.x", i),
+            2 => format!("mod\u{e9}le-{}", i),
+            3 => format!("n{}-{}", i, "long".repeat(20)),
+            _ => format!("n{}", i),
+        };
+        let mut ns = NodeSpec { name, cap: rng.range(1, o.max_cap as u64) as usize, added: true, key_slots: 1, ..Default::default() };
+        // One bench in eight is a single chain (every model a sub-model of the previous one).
+        let chain = o.hierarchy && seed % 8 == 3;
+        if o.hierarchy && i > 0 && (chain || rng.chance(1, 3)) {
+            // Parent among lower indices, depth <= 5.
+            let p = if chain { i - 1 } else { rng.usize(i) };
             let mut depth = 1;
             let mut q = p;
             while let Some(pp) = spec.nodes[q].parent {
                 depth += 1;
                 q = pp;
             }
-            if depth <= 3 {
+            if depth <= 5 {
                 ns.parent = Some(p);
             }
         }
